@@ -15,10 +15,16 @@ def vhdl_tokens(text):
         if text.startswith('--', i):
             j = text.find('\n', i); j = n if j < 0 else j
             out.append((i, j, 'comment')); i = j; continue
+        mb0 = re.match(r'[sSuU]?[bBoOxXdD]"[^"\n]*"', text[i:])
+        if mb0:
+            out.append((i, i + mb0.end(), 'string')); i += mb0.end(); continue
         if c.isalpha():
             j = i + 1
             while j < n and (text[j].isalnum() or text[j] == '_'): j += 1
             out.append((i, j, 'ident')); i = j; continue
+        mb = re.match(r'\d*[sSuU]?[bBoOxXdD]"[^"\n]*"', text[i:])
+        if mb:
+            out.append((i, i + mb.end(), 'string')); i += mb.end(); continue
         if c.isdigit():
             j = i + 1
             while j < n and (text[j].isalnum() or text[j] in '_.#'): j += 1
@@ -81,7 +87,7 @@ class AnalysisInvariance(DesignPart):
         self.name, self.designs, self.kind, self.stride, self.offset = name, designs, kind, stride, offset
         self.required_classes = required; self.time_cap = time_cap
         self.bounds = dict(designs=[d['name'] for d in designs], kind=kind, selection=f'every {stride}. token / gap of each design file',
-                           case='every letter of the chosen basic identifier or keyword is symbolic in {lower case, upper case}; diagnostics compared with the original modulo the case of messages',
+                           case='one letter (every choice) and the last letter of the chosen basic identifier or keyword are symbolic in {lower case, upper case}; diagnostics compared with the original modulo the case of messages',
                            layout='inserted: one blank (symbolic in space, tab, LF, CR) | " -- c" + LF | "/* c */" ; or one whitespace run containing a line break replaced by a space; semantic and lint diagnostics compared token-relative, syntax errors by code and message',
                            std='bundled std library, parsed and analysed by the real code')
 
@@ -110,11 +116,15 @@ class AnalysisInvariance(DesignPart):
         nl_inserted = None
         if self.kind == 'case':
             chars = [BV(ord(c), 32) for c in text]
-            for j in range(s, e):
-                if text[j].isalpha():
-                    v = inp.bv(f'l{j - s}', 32)
-                    if inp.symbolic: ctx.assume(z3.Or(v.e == ord(text[j].lower()), v.e == ord(text[j].upper())))
-                    chars[j] = v
+            letters = [j for j in range(s, e) if text[j].isalpha()]
+            # one or two letters of the token are symbolic at a time (the tokenizer and the interner fork on every symbolic letter)
+            j1 = letters[choose(ctx, inp, 'letter', len(letters))]
+            pick = [j1] + ([letters[-1]] if letters[-1] != j1 else [])
+            for j in pick:
+                v = inp.bv(f'l{j - s}', 32)
+                if inp.symbolic: ctx.assume(z3.Or(v.e == ord(text[j].lower()), v.e == ord(text[j].upper())))
+                elif f'l{j - s}' not in inp.case: v = BV(ord(text[j]), 32)
+                chars[j] = v
             newtext = None
         else:
             how = choose(ctx, inp, 'how', 4)
@@ -132,6 +142,8 @@ class AnalysisInvariance(DesignPart):
                 newtext = text[:gap_start] + ' ' + text[s:]
             if how != 0: chars = [BV(ord(c), 32) for c in newtext]
         pr = kit.new_project(ctx, copy=not inp.symbolic)
+        # the iteration order of the hash maps of the analyser is an environment choice (declaration order is re-established by sorting on positions)
+        if self.kind == 'layout' and inp.symbolic: ctx.hash_rev = ctx.branch(inp.bool('hash order reversed'))
         try:
             pr.set_text(ctx, fname, chars); pr.map_file(ctx, fname, lib); pr.update(ctx, fname)
             B = [kit.diag_obs(d) for d in pr.analyse(ctx)]
